@@ -274,7 +274,8 @@ pub static OPS_FLOAT: &[Op] = &[
          exp.iter().map(|(t, s)| format!("{} {:?}", show_total(*t), s)).collect::<Vec<_>>().join(" | "))
     }},
     // ---------------------------------------------------------------- C20 / C09: day of year
-    Op { name: "day_of_year", sig: &[Ty::Dur, Ty::UTs], pre: |a| (a[0].total() + greg_zero(a[1].ts())).abs() < 3_000_000 * DAY_NS, f: |a| {
+    // (every scale with an integer calendar: the six uniform scales and UTC, whose count has no leap seconds in it)
+    Op { name: "day_of_year", sig: &[Ty::Dur, Ty::Ts], pre: |a| !matches!(a[1].ts(), TimeScale::ET | TimeScale::TDB) && (a[0].total() + greg_zero(a[1].ts())).abs() < 3_000_000 * DAY_NS, f: |a| {
         let ts = a[1].ts();
         let e = Epoch::from_duration(a[0].dur(), ts);
         let g = a[0].total() + greg_zero(ts);
@@ -307,5 +308,83 @@ pub static OPS_FLOAT: &[Op] = &[
             bad.push(format!("from_day_of_year({}, {}) = {} ns, expected {} ns", y, k, dtotal(b2.duration), start + (k as i128 - 1) * DAY_NS - greg_zero(ts)));
         }
         verdict(bad)
+    }},
+
+    // ---------------------------------------------------------------- C11: text form of a duration (bounded stand-in: text is
+    // outside both verifiers).  Display prints exactly the non-zero components of the decomposition with their unit names and a
+    // single leading minus sign ("0 ns" for zero); parsing that text, and the serde round trip, return the identical duration.
+    Op { name: "duration_text", sig: &[Ty::Dur], pre: |a| a[0].total() >= -NPC, f: |a| {
+        use core::str::FromStr;
+        let t = clamp(a[0].total());
+        let d = Duration::from_total_nanoseconds(t);
+        let m = t.abs();
+        let comps = [m / DAY_NS, (m / 3_600_000_000_000) % 24, (m / 60_000_000_000) % 60, (m / SEC) % 60, (m / 1_000_000) % 1000, (m / 1000) % 1000, m % 1000];
+        let names = [if comps[0] > 1 { "days" } else { "day" }, "h", "min", "s", "ms", "μs", "ns"];
+        let body: Vec<String> = comps.iter().zip(names.iter()).filter(|(v, _)| **v > 0).map(|(v, n)| format!("{} {}", v, n)).collect();
+        let want = if t == 0 { "0 ns".to_string() } else { format!("{}{}", if t < 0 { "-" } else { "" }, body.join(" ")) };
+        let text = format!("{}", d);
+        let parsed = Duration::from_str(&text).map(|x| show_parts(x.to_parts())).unwrap_or_else(|e| format!("parse error {:?}", e));
+        let js = serde_json::to_string(&d).unwrap_or_else(|e| format!("serialize error {}", e));
+        let back = serde_json::from_str::<Duration>(&js).map(|x| show_parts(x.to_parts())).unwrap_or_else(|e| format!("deserialize error {}", e));
+        (format!("{} | {} | {}", text, parsed, back), format!("{} | {} | {}", want, show_total(t), show_total(t)))
+    }},
+    // "Parsing also accepts the documented unit spellings, fractional values and [+-]HH:MM[:SS] offsets with the value they denote"
+    Op { name: "duration_parse_forms", sig: &[Ty::U32, Ty::U8, Ty::U8, Ty::Bool], pre: |_| true, f: |a| {
+        use core::str::FromStr;
+        const SPELL: [(&str, i128); 25] = [("d", DAY_NS), ("days", DAY_NS), ("day", DAY_NS), ("h", 3_600_000_000_000), ("hours", 3_600_000_000_000),
+            ("hour", 3_600_000_000_000), ("hr", 3_600_000_000_000), ("min", 60_000_000_000), ("mins", 60_000_000_000), ("minute", 60_000_000_000),
+            ("minutes", 60_000_000_000), ("s", SEC), ("second", SEC), ("seconds", SEC), ("sec", SEC), ("ms", 1_000_000), ("millisecond", 1_000_000),
+            ("milliseconds", 1_000_000), ("μs", 1000), ("us", 1000), ("microsecond", 1000), ("microseconds", 1000), ("ns", 1), ("nanosecond", 1), ("nanoseconds", 1)];
+        let v = a[0].int() % 1_000_000;
+        let (sp, w) = SPELL[(a[1].int() % 25) as usize];
+        let (sp2, w2) = SPELL[(a[2].int() % 25) as usize];
+        let neg = a[3].boolean();
+        let sg: i128 = if neg { -1 } else { 1 };
+        let pfx = if neg { "-" } else { "" };
+        let show = |r: Result<Duration, hifitime::HifitimeError>| r.map(|x| show_parts(x.to_parts())).unwrap_or_else(|e| format!("error {:?}", e));
+        let mut got = vec![];
+        let mut want = vec![];
+        // whole value, one unit
+        got.push(show(Duration::from_str(&format!("{}{} {}", pfx, v, sp)))); want.push(show_total(sg * v * w));
+        // two components with different units
+        if w != w2 {
+            got.push(show(Duration::from_str(&format!("{}{} {} {} {}", pfx, v, sp, a[2].int(), sp2)))); want.push(show_total(sg * (v * w + a[2].int() * w2)));
+        }
+        // fractional values that are exact in binary: halves and quarters of units of at least 4 ns
+        if w >= 4 {
+            got.push(show(Duration::from_str(&format!("{}{}.5 {}", pfx, v, sp)))); want.push(show_total(sg * (v * w + w / 2)));
+            got.push(show(Duration::from_str(&format!("{}{}.25 {}", pfx, v, sp)))); want.push(show_total(sg * (v * w + w / 4)));
+        }
+        // offsets [+-]HH:MM and [+-]HH:MM:SS
+        let (hh, mm, ss) = (a[0].int() % 24, a[1].int() % 60, a[2].int() % 60);
+        let sign_c = if neg { '-' } else { '+' };
+        got.push(show(Duration::from_str(&format!("{}{:02}:{:02}", sign_c, hh, mm)))); want.push(show_total(sg * (hh * 3_600_000_000_000 + mm * 60_000_000_000)));
+        got.push(show(Duration::from_str(&format!("{}{:02}:{:02}:{:02}", sign_c, hh, mm, ss)))); want.push(show_total(sg * (hh * 3_600_000_000_000 + mm * 60_000_000_000 + ss * SEC)));
+        (got.join(" | "), want.join(" | "))
+    }},
+    // ---------------------------------------------------------------- C09: default text form of an epoch (bounded stand-in):
+    // YYYY-MM-DDTHH:MM:SS, nine fractional digits only when non-zero, then the scale name -- the fields of the epoch in its own
+    // scale; {:x} the same in TAI, {:X} in TT, {:?} in UTC
+    Op { name: "epoch_display", sig: &[Ty::Dur, Ty::UTs], pre: |a| views_pre(a) && (a[0].total() + greg_zero(a[1].ts())).abs() < 3_000_000 * DAY_NS, f: |a| {
+        let ts = a[1].ts();
+        let e = Epoch::from_duration(a[0].dur(), ts);
+        let name = |s: TimeScale| match s { TimeScale::TAI => "TAI", TimeScale::TT => "TT", TimeScale::ET => "ET", TimeScale::TDB => "TDB", TimeScale::UTC => "UTC",
+            TimeScale::GPST => "GPST", TimeScale::GST => "GST", TimeScale::BDT => "BDT", TimeScale::QZSST => "QZSST", _ => "?" };
+        let text_of = |g: i128, s: TimeScale| {
+            let (y, mo, d) = civil_of_day(g.div_euclid(DAY_NS));
+            let tod = g.rem_euclid(DAY_NS);
+            let (h, mi, sec, ns) = (tod / 3_600_000_000_000, (tod / 60_000_000_000) % 60, (tod / SEC) % 60, tod % SEC);
+            if ns == 0 { format!("{:04}-{:02}-{:02}T{:02}:{:02}:{:02} {}", y, mo, d, h, mi, sec, name(s)) }
+            else { format!("{:04}-{:02}-{:02}T{:02}:{:02}:{:02}.{:09} {}", y, mo, d, h, mi, sec, ns, name(s)) }
+        };
+        let tai = a[0].total() + scale_zero(ts).unwrap();
+        let mut got = vec![format!("{}", e), format!("{:x}", e), format!("{:X}", e), e.to_gregorian_str(ts)];
+        let mut want = vec![text_of(a[0].total() + greg_zero(ts), ts), text_of(tai, TimeScale::TAI), text_of(tai - scale_zero(TimeScale::TT).unwrap(), TimeScale::TT),
+                            text_of(a[0].total() + greg_zero(ts), ts)];
+        if let Some(u) = utc_of_tai(tai) {
+            got.push(format!("{:?}", e));
+            want.push(text_of(u, TimeScale::UTC));
+        }
+        (got.join(" | "), want.join(" | "))
     }},
 ];
